@@ -338,7 +338,12 @@ impl RegexVec {
         mut budget: u64,
     ) -> Result<bool> {
         let budget0 = budget;
-        assert!(self.subsume_possible(state));
+        // The lexer may have entered its error state (fuel / state limit) since the caller
+        // checked subsume_possible(): nothing is contained then, and the limit error is
+        // reported by the caller of the mask computation.
+        if !self.subsume_possible(state) {
+            return Ok(false);
+        }
         let small = self.get_rx(lexeme_idx);
         let mut res = false;
         for (idx, e) in iter_state(&self.rx_sets, state) {
